@@ -117,6 +117,15 @@ def discover_penaliser(ctx, drv):
     """the helper (reachable from the driver) that takes (savings, alpha, betas)"""
     reach = _reach(ctx, drv)
     c = [f for f in reach.values() if f.cls is None and len(f.params) == 3 and "alpha" in f.params[1] and "beta" in f.params[2]]
+    if len(c) > 1:
+        # a penaliser may delegate part of its work to a private helper of the same signature: the penaliser is the one
+        # that is not called by another candidate
+        inner = set()
+        for f in c:
+            for g in _reach(ctx, f).values():
+                if g is not f and g in c:
+                    inner.add(g.qualname)
+        c = [f for f in c if f.qualname not in inner]
     if len(c) != 1:
         ctx.undecided("C03.b PEN-SAVING", "helper", drv.loc(), f"expected one penalising helper (savings, alpha, betas), found {[f.name for f in c]}")
         return None
@@ -869,7 +878,20 @@ def check_predict(ctx, name, drv):
         ctx.check(is_sorted, "C03.h IGNORE-POINT", key + "|sorted", fm[-1].loc(), "the list handed to the formatter is sorted(...)", found=repr(arg))
         if not is_sorted:
             continue
-        parts = [src] + list(getattr(src, "extended", []))
+        def _leaf_lists(x):
+            """the driver-output lists a list value is made of: a + b (parts), a += b (extended), list(a), a[:] ..."""
+            out = []
+            ps = getattr(x, "parts", None)
+            if ps is not None:
+                for q in ps:
+                    out.extend(_leaf_lists(q))
+            else:
+                out.append(x)
+            for q in getattr(x, "extended", []) or []:
+                out.extend(_leaf_lists(q))
+            return out
+
+        parts = _leaf_lists(src)
         roles = sorted(str(getattr(x, "role", "?")) for x in parts)
         want = ["collective"] if ig else ["collective", "point"]
         ctx.check(roles == want, "C03.h IGNORE-POINT", key, fm[-1].loc(), "formatter receives collective + point anomalies, or only the collective ones when ignore_point_anomalies is set", found=roles, expected=want)
